@@ -166,25 +166,37 @@ class Vector(Base):
         return _binary_op("__add__", self, other)
 
     def __iadd__(self, other):
-        return _binary_op("__iadd__", self, other)
+        # The component Arrays are updated in place: keep this Vector, so that every
+        # other reference to it sees the new values and the new unit
+        _binary_op("__iadd__", self, other)
+        return self
 
     def __sub__(self, other):
         return _binary_op("__sub__", self, other)
 
     def __isub__(self, other):
-        return _binary_op("__isub__", self, other)
+        # The component Arrays are updated in place: keep this Vector, so that every
+        # other reference to it sees the new values and the new unit
+        _binary_op("__isub__", self, other)
+        return self
 
     def __mul__(self, other):
         return _binary_op("__mul__", self, other)
 
     def __imul__(self, other):
-        return _binary_op("__imul__", self, other)
+        # The component Arrays are updated in place: keep this Vector, so that every
+        # other reference to it sees the new values and the new unit
+        _binary_op("__imul__", self, other)
+        return self
 
     def __truediv__(self, other):
         return _binary_op("__truediv__", self, other)
 
     def __itruediv__(self, other):
-        return _binary_op("__itruediv__", self, other)
+        # The component Arrays are updated in place: keep this Vector, so that every
+        # other reference to it sees the new values and the new unit
+        _binary_op("__itruediv__", self, other)
+        return self
 
     def __rmul__(self, other):
         return self * other
